@@ -38,9 +38,9 @@ func checkC04(c *Ctx, r *Report) {
 				}
 				nret++
 				key := fmt.Sprintf("sm3.(*SM3).Write return#%d", nret)
-				got := env.Int(ret.Results[0])
+				got := env.Int(retVals(ret)[0])
 				r.Check(got.Equal(want), "L-RET", key+" n", p.InstrPos(ret), "first result is "+got.String()+", contract is len(data)")
-				r.Check(isNilConst(ret.Results[1]), "L-RET", key+" err", p.InstrPos(ret), "second result is the nil constant")
+				r.Check(isNilConst(retVals(ret)[1]), "L-RET", key+" err", p.InstrPos(ret), "second result is the nil constant")
 			}
 		}
 		r.Count("write_returns", nret)
@@ -66,7 +66,7 @@ func checkC04(c *Ctx, r *Report) {
 				if !ok {
 					continue
 				}
-				ls, ok := env.Len(ret.Results[0])
+				ls, ok := env.Len(retVals(ret)[0])
 				good := ok && len(ls) > 0
 				var ss []string
 				for _, l := range ls {
@@ -78,7 +78,7 @@ func checkC04(c *Ctx, r *Report) {
 				r.Check(good, "L-RET", "sm3.(*SM3).Sum result length", p.InstrPos(ret), "length set {"+strings.Join(ss, ", ")+"}, contract len(in)+32")
 				// prefix: the result must be built by append on `in`
 				isAppend := false
-				if call, ok := ret.Results[0].(*ssa.Call); ok {
+				if call, ok := retVals(ret)[0].(*ssa.Call); ok {
 					if b, ok := call.Call.Value.(*ssa.Builtin); ok && b.Name() == "append" && call.Call.Args[0] == ssa.Value(fn.Params[1]) {
 						isAppend = true
 					}
